@@ -7,15 +7,18 @@ from rules.c13 import chase_mentions
 from rules import roles
 
 LEVEL_TEXT = (
-    "Structural necessary conditions only — the numeric bound itself is NOT decided: R1 every store through the policy is "
-    "accounted before it is written (incr_mem_usage(record.len()) precedes the inner set on every path, so the sweep runs "
-    "while the new record is not in the map and cannot pick it); R2 sweep shape: the eviction loop is entered on usage > "
-    "limit, exits when the store is empty, draws its victim index only after the empty-store exit (gen_range(0..max) with "
-    "max != 0), removes through the inner store and subtracts each removed record's size; R3 never under-counting: the only "
-    "content-adding inner call of the policy is set, always preceded by the addition; every subtraction is the size of a "
-    "record returned by a removing call (or the empty-store reset); R4 wiring: policy Random wraps the very MemoryStore with "
-    "the configured limit, policy None uses the MemoryStore directly, and the CLI memory limit / policy reach the store "
-    "config. Not decided: the bound L + one record, termination under concurrent writers."
+    'Structural necessary conditions only — the numeric bound itself is NOT decided: R1 every store through the '
+    'policy is accounted before it is written (on every path of RandomPolicy::set the usage is raised by exactly '
+    'Record::len() of the record — the same affine measure the removing paths subtract — and the sweep has run before '
+    'the inner set, so it cannot pick the new record); R2 sweep shape (the function holding the eviction loop is '
+    'identified structurally): the loop is entered on usage > limit, exits when the store is empty, draws its victim '
+    'index only after the empty-store exit (gen_range(0..max) with max != 0), removes through the inner store and '
+    'subtracts the size of every record the removal handed back; R3 never under-counting: the only content-adding '
+    'inner call of the policy is set, always preceded by the addition; every subtraction is the size of a record '
+    'returned by a removing call (or the empty-store reset); the counter is never overwritten; R4 wiring: policy '
+    'Random wraps the very MemoryStore with the configured limit, policy None uses the MemoryStore directly, and the '
+    'CLI memory limit / policy reach the store config (composed through the public constructors). Not decided: the '
+    'bound L + one record, termination under concurrent writers.'
 )
 ASSUMPTIONS = [
     "Record::len() = size_of(header) + value length is the accounting unit",
